@@ -220,7 +220,12 @@ namespace xsimd
         {
             if (std::is_signed<T>::value)
             {
-                return sadd(self, -other);
+                // -other overflows for other == min, so clamp self on the side where the difference could
+                // leave [min, max] and subtract directly
+                const auto other_neg = other < batch<T, A>(T(0));
+                const auto self_pos_branch = max(std::numeric_limits<T>::min() + other, self);
+                const auto self_neg_branch = min(std::numeric_limits<T>::max() + other, self);
+                return select(other_neg, self_neg_branch, self_pos_branch) - other;
             }
             else
             {
